@@ -118,6 +118,7 @@ def _impl(tier, seed, search):
         r_ = g.random(); w = inputs.unit_axis(g)
         if r_ < 0.25: w = np.zeros(3)
         elif r_ < 0.4: w = w * 10.0 ** g.uniform(-16, -15.5)          # below the zero threshold (10 eps)
+        elif r_ < 0.52: w = w * 10.0 ** g.uniform(-13.5, -8)           # small but clearly non-zero rotational part (with any translational part)
         else: w = w * 10.0 ** g.uniform(-6, 6)
         vv = g.normal(size=3) * 10.0 ** g.uniform(-6, 6)
         S = np.r_[vv, w]
@@ -137,6 +138,10 @@ def _impl(tier, seed, search):
         ok, r = L.noraise('unittwist_norm', lambda: b.unittwist_norm(S), dict(S=S), 'unittwist_norm')
         if ok and r[0] is not None and us is not None:
             L.close('unittwist_norm', r[0] * r[1], S, TOL, float(np.max(np.abs(S))), dict(S=S))
+            if np.linalg.norm(w) > 100 * 2.2e-16 or np.linalg.norm(w) == 0:
+                L.close('unittwist_norm=unittwist', r[0], us, TOL, max(1.0, float(np.max(np.abs(us)))), dict(S=S), what='unittwist_norm and unittwist normalise the same twist differently', sig='unittwist_norm')
+            if np.linalg.norm(w) > 100 * 2.2e-16:
+                L.close('unittwist_norm:unit-rotational-part', float(np.linalg.norm(r[0][3:])), 1.0, TOL, 1.0, dict(S=S), sig='unittwist_norm')
         w2 = 0.0 if g.random() < 0.3 else float(g.normal() * 10.0 ** g.uniform(-6, 6)); S2 = np.r_[vv[:2], w2]
         ok, r = L.noraise('unittwist2', lambda: b.unittwist2(S2), dict(S=S2), 'unittwist2')
         if ok and r is not None:
